@@ -394,6 +394,12 @@ func c13CLI(c *Ctx) {
 	y.WriteString("name: verifpkg\narch: amd64\nplatform: linux\nversion: 1.2.3\nmaintainer: Verif <verif@example.com>\ndescription: override blocks through the command\nmtime: 2023-11-14T22:13:20Z\ndepends: [base-dependency]\nrpm:\n  buildhost: buildhost.example\ncontents:\n- src: " + tool + "\n  dst: /usr/bin/tool\n- src: " + treeDir + "\n  dst: /opt/only-rpm\n  type: tree\n  packager: rpm\n- src: " + filepath.Join(treeDir, "a.txt") + "\n  dst: /usr/share/verifpkg/a.txt\noverrides:\n")
 	for i, f := range Formats {
 		fmt.Fprintf(&y, "  %s:\n    depends: [only-%s]\n    umask: 0o077\n", f, f)
+		if f == "deb" {
+			y.WriteString("    deb:\n      arch: armhf\n")
+		}
+		if f == "rpm" {
+			y.WriteString("    rpm:\n      arch: armv7hl\n")
+		}
 		if i%2 == 1 {
 			fmt.Fprintf(&y, "    contents:\n    - src: %s\n      dst: /usr/bin/tool\n    - src: %s\n      dst: /usr/bin/tool-%s\n", tool, tool, f)
 		}
@@ -412,6 +418,41 @@ func c13CLI(c *Ctx) {
 		if berr != nil {
 			c.Rep.Note("override-blocks-through-the-command: %s does not build in process: %v", f, berr)
 			continue
+		}
+		{
+			// the target is a directory: the package is written under the conventional name of the EFFECTIVE settings
+			// (the override block of the format included)
+			dir := filepath.Join(root, fmt.Sprintf("%s-dirtarget-%d", f, i))
+			_ = os.MkdirAll(filepath.Join(dir, "out"), 0o755)
+			_ = os.WriteFile(filepath.Join(dir, "nfpm.yaml"), []byte(y.String()), 0o644)
+			wantName := ""
+			if cfg2, perr := nfpm.Parse(strings.NewReader(y.String())); perr == nil {
+				if i2, gerr := cfg2.Get(f); gerr == nil {
+					if pk, kerr := nfpm.Get(f); kerr == nil {
+						wantName = pk.ConventionalFileName(nfpm.WithDefaults(i2))
+					}
+				}
+			}
+			code, out := runNfpm(bin, dir, "-p", f, "-t", "out")
+			fam.Eval(f+"|directory-target", true)
+			in := map[string]any{"format": f, "config": y.String(), "args": []string{"package", "-p", f, "-t", "out"}}
+			ents, _ := os.ReadDir(filepath.Join(dir, "out"))
+			var have []string
+			for _, e := range ents {
+				have = append(have, e.Name())
+			}
+			if code != 0 {
+				c.Rep.Find(report.Finding{Property: "C13", Family: fam.Name, Shape: "command:directory-target:fails",
+					What: fmt.Sprintf("`nfpm package -p %s -t out` exits %d: %s", f, code, cliCause(out)), Input: in})
+			} else if wantName != "" && (len(have) != 1 || have[0] != wantName) {
+				c.Rep.Find(report.Finding{Property: "C13", Family: fam.Name, Shape: "command:directory-target:file-name-differs-from-effective-settings",
+					What: fmt.Sprintf("`nfpm package -p %s -t out` wrote %v; the conventional file name of Config.Get(%q) is %q (the override block of the format is part of the settings the name is made of)", f, have, f, wantName), Input: in})
+			} else if wantName != "" {
+				if got, rerr := os.ReadFile(filepath.Join(dir, "out", wantName)); rerr == nil && !bytes.Equal(got, want) {
+					c.Rep.Find(report.Finding{Property: "C13", Family: fam.Name, Shape: "command:directory-target:package-differs-from-effective-settings",
+						What: fmt.Sprintf("the %s package written into a directory target differs from the one built in process: %s", f, diffWhat(want, got)), Input: in})
+				}
+			}
 		}
 		for _, how := range []string{"named", "guessed"} {
 			if how == "guessed" && f == "archlinux" {
@@ -784,6 +825,7 @@ func runC13(c *Ctx) error {
 		}
 	}
 	c13GetResultsAreIndependent(c)
+	c13UmaskInPackages(c)
 	return nil
 }
 
@@ -842,6 +884,65 @@ func c13GetResultsAreIndependent(c *Ctx) {
 			if view(b) != view(want) {
 				c.Rep.Find(report.Finding{Property: "C13", Family: "get-results-are-independent", Shape: "effective-settings-depend-on-an-earlier-result",
 					What: fmt.Sprintf("Config.Get(%q) after the result of Get(%q) was completed and packaged: %s; from an untouched configuration: %s", f2, f1, view(b), view(want)), Input: in})
+			}
+		}
+	}
+}
+
+// c13UmaskInPackages: `umask` is an overridable setting; the mode of a file that takes it from its source is the source's
+// mode minus the umask in force for THAT format – whichever format was packaged before in the same process.
+func c13UmaskInPackages(c *Ctx) {
+	fam := c.Rep.Family("override-umask-in-packages", "exhaustive: base umask 022, override blocks with umask 077 (rpm) and 027 (apk), a source file of mode 0777 and a tree with a 0666 file; the five formats packaged from one configuration in four orders (and Config.Validate first in two of them): the mode of the file inside every package = source mode minus the umask of that format; non-trivial = always")
+	fam.Exhaustive = true
+	dir := filepath.Join(c.Tmp, "c13umask")
+	_ = os.MkdirAll(filepath.Join(dir, "t"), 0o755)
+	wide := filepath.Join(dir, "wide.sh")
+	_ = os.WriteFile(wide, []byte("#!/bin/sh\n"), 0o777)
+	_ = os.Chmod(wide, 0o777)
+	inTree := filepath.Join(dir, "t", "data.bin")
+	_ = os.WriteFile(inTree, []byte("data"), 0o666)
+	_ = os.Chmod(inTree, 0o666)
+	for _, p := range []string{wide, inTree, filepath.Join(dir, "t")} {
+		_ = os.Chtimes(p, time.Unix(1600000200, 0), time.Unix(1600000200, 0))
+	}
+	um := map[string]uint32{"deb": 0o022, "rpm": 0o077, "apk": 0o027, "ipk": 0o022, "archlinux": 0o022}
+	orders := [][]string{{"rpm", "deb", "apk", "ipk", "archlinux"}, {"deb", "rpm", "ipk", "apk", "archlinux"}, {"apk", "archlinux", "deb", "rpm", "ipk"}, {"ipk", "apk", "rpm", "deb", "archlinux"}}
+	for oi, order := range orders {
+		s := &PkgSpec{Raw: []wire.Content{{Src: wide, Dst: "/usr/bin/wide.sh"}, {Src: filepath.Join(dir, "t"), Dst: "/opt/t", Type: "tree"}}, Umask: 0o022, MTime: 1700000000}
+		cfg := &nfpm.Config{Info: *s.Info(), Overrides: map[string]*nfpm.Overridables{"rpm": {Umask: 0o077}, "apk": {Umask: 0o027}}}
+		if oi%2 == 1 {
+			_ = cfg.Validate()
+		}
+		for step, f := range order {
+			info, err := cfg.Get(f)
+			if err != nil {
+				continue
+			}
+			data, err := BuildPkg(f, nfpm.WithDefaults(info))
+			fam.Eval(fmt.Sprintf("%d|%d|%s", oi, step, f), err == nil)
+			if err != nil {
+				continue
+			}
+			dec, err := DecodePkg(f, data)
+			if err != nil {
+				continue
+			}
+			for _, m := range dec.Members {
+				n := "/" + strings.TrimLeft(strings.TrimPrefix(m.Name, "."), "/")
+				var src uint32
+				switch n {
+				case "/usr/bin/wide.sh":
+					src = 0o777
+				case "/opt/t/data.bin":
+					src = 0o666
+				default:
+					continue
+				}
+				if want := uint64(src &^ um[f]); uint64(m.Mode)&0o7777 != want {
+					c.Rep.Find(report.Finding{Property: "C13", Family: "override-umask-in-packages", Shape: f + ":mode-not-source-minus-the-umask-of-the-format",
+						What:  fmt.Sprintf("%s in the %s package (step %d of %v, validate first: %v) has mode %o; its source has %o and the umask in force for %s is %o: expected %o", n, f, step+1, order, oi%2 == 1, m.Mode&0o7777, src, f, um[f], want),
+						Input: map[string]any{"order": order, "step": step + 1, "format": f, "base_umask": "022", "overrides": "rpm: umask 077, apk: umask 027"}})
+				}
 			}
 		}
 	}
